@@ -261,6 +261,20 @@ def run_sweep(case, res):
         P, feats = wl.single_assembly(rng, coolant_pool=True,
                                       max_rings=5, length=0.3,
                                       vel=wl.loguniform(rng, 0.05, 6.0))
+    if P is not None and rng.random() < 0.35:
+        # multi-duct assemblies with heating in some walls only
+        for q in P['positions']:
+            nd_ = len(P['types'][q['type']]['duct_ftf']) // 2
+            if nd_ > 1:
+                sp_ = P['power']['asm'][str(gen.pos_index0(q['ring'],
+                                                           q['pos']))]
+                sp_['comps'] = [1, 2, 3]
+                sp_['frac'] = [0.6, 0.3, 0.1]
+                zero = [w for w in range(nd_) if rng.random() < 0.5]
+                if len(zero) == nd_:
+                    zero = zero[1:]
+                sp_['duct_walls_zero'] = zero or [nd_ - 1]
+                feats['walls_unheated'] = True
     key = {'gap': (P['gap_model'] if P else 'repo'), 'tdep': feats['tdep']}
     nt = [0]
     on_step = step_contract(res, key, nt)
@@ -282,6 +296,7 @@ def run_sweep(case, res):
                     res.tag('n_duct=%d' % reg.n_duct)
     res.tag('gap=' + (P['gap_model'] if P else 'repo'))
     res.tag('tdep=%s' % feats['tdep'])
+    res.tag('some_walls_unheated=%s' % bool(feats.get('walls_unheated')))
     if nt[0] >= 100:
         res.nontrivial(repr(sorted(feats.items(), key=str)))
     return feats
